@@ -346,11 +346,12 @@ def __delitem__(self, key):
 T_INDEX_SETDEFAULT = '''
 def setdefault(self, key, default=None):
     _cache = self._cache
-    while True:
-        try:
-            return __Hret__
-        except KeyError:
-            __Hadd__
+    with _cache.transact(retry=__Hretry__):
+        while True:
+            try:
+                return __Hret__
+            except KeyError:
+                __Hadd__
 '''
 
 T_INDEX_PEEKITEM = '''
@@ -933,7 +934,9 @@ def emit(ctx):
     else:
         err(ret, 'unsupported setdefault result: ' + ast.unparse(ret), fname)
     D('Definition index_setdefault_returns_stored : bool := %s.' % stored)
-    meth, rec, full = c_cache_call(h['__Hadd__'], sigs, fname, passthrough={'key': 'key', 'value': 'default'})
+    D('(* the lookup / add loop runs inside one transaction of the underlying cache *)')
+    D('Definition index_setdefault_retry : bool := %s.' % c_bool(h['__Hretry__'], fname))
+    meth, rec, full = c_cache_call(h['__Hadd__'], sigs, fname, in_txn=True, passthrough={'key': 'key', 'value': 'default'})
     if dotted(full['value']) != 'default':
         err(h['__Hadd__'], 'setdefault no longer adds `default`', fname)
     D('Definition index_setdefault_add : qcall := %s.' % rec)
